@@ -1,5 +1,6 @@
 mod chacha;
 mod guts;
+mod null;
 mod simd;
 mod util;
 
@@ -39,6 +40,7 @@ fn main() {
         "c14" => guts::drive_c14(&mut *out, seed, thorough),
         "c15" => guts::drive_c15(&mut *out, seed, thorough),
         "simd" => simd::drive_simd(&mut *out, seed, thorough, arg(&args, "--cfg").unwrap_or("?"), arg(&args, "--force").map(|f| f.parse().unwrap()).unwrap_or(0)),
+        "c19" => null::drive_c19(&mut *out, seed, thorough),
         "stream-end64" => chacha::drive_end64(&mut *out, seed, thorough),
         "stream-rand" => chacha::drive_histories(&mut *out, seed, thorough, true),
         d => {
